@@ -361,6 +361,8 @@ def run_history(spec, res):
 
     R._store_context, R._get_context = store, get
     pool = []   # (prog, live, all_ids)
+    handles: dict = {}      # id(live document) -> [(query, Identifier taken from it, step)]
+    moved_into: set = set()
     try:
         for step in range(spec["n"]):
             k = rng.random()
@@ -370,9 +372,33 @@ def run_history(spec, res):
                     continue
                 wal_text(prog.text)
                 pool.append((prog, parse(prog.text), frozenset(int(x) for x in ID_RE.findall(prog.text))))
+                # handles: identifiers taken out of the document now and resolved much later, after
+                # many other documents have been created and resolved in between
+                if rng.random() < 0.35:
+                    live_new = pool[-1][1]
+                    for q in [q for q in S.queries(prog) if "->" not in q][:2]:
+                        try:
+                            hv = live_new
+                            for kk in q:
+                                hv = hv[kk]
+                            if isinstance(hv, Identifier):
+                                handles.setdefault(id(live_new), []).append((q, hv, step))
+                        except Exception:  # noqa: BLE001
+                            pass
                 B.bump(obs["history_ops"], "create")
                 B.bump(obs["legs"], "history")
                 obs["pool_max"] = max(obs["pool_max"], len(pool))
+            elif k < 0.32 and handles:
+                # use an old handle (documents whose structure was changed by a move are skipped)
+                cands = [(p_, l_, i_) for (p_, l_, i_) in pool if id(l_) in handles and id(l_) not in moved_into]
+                if not cands:
+                    continue
+                prog, live, ids = rng.choice(cands)
+                q, hv, born = rng.choice(handles[id(live)])
+                B.bump(obs["history_ops"], "use-handle")
+                obs["handle_age_max"] = max(obs.get("handle_age_max", 0), step - born)
+                _judge(res, obs, nontriv, prog, q, "history", (lambda _src, _q, hv=hv: (lambda: hv.value)), live, ids,
+                       codes, f"handle taken at step {born}, used at step {step}")
             elif k < 0.75:
                 prog, live, ids = rng.choice(pool)
                 qs = S.queries(prog)
@@ -415,9 +441,12 @@ def run_history(spec, res):
                     gc.collect()
                 ids_b2 = frozenset(int(x) for x in ID_RE.findall(prog_b.text))
                 pool[ib] = (prog_b, live_b, ids_b2)
+                moved_into.add(id(live_b))
+                handles.pop(id(live_a), None)
                 _judge(res, obs, nontriv, prog_b, [kb], "history", doc_resolver, live_b, ids_b2, codes, f"moved at step {step}")
             elif k < 0.9:
                 idx = rng.randrange(len(pool))
+                handles.pop(id(pool[idx][1]), None)
                 pool.pop(idx)
                 B.bump(obs["history_ops"], "discard")
                 if rng.random() < 0.6:
@@ -443,6 +472,7 @@ def run_history(spec, res):
             if res["witnesses"] and len(res["witnesses"]) > 40:
                 break
         pool.clear()
+        handles.clear()
         prog = live = None
         gc.collect()
         obs["registry_after_all_discarded"] = len(R._CONTEXTS)
